@@ -131,20 +131,38 @@ func (c *Ctx) c15StateCheck() {
 		return (strings.HasSuffix(a0.String(), ".Y") && a1.String() == "elem("+ys+")") || (strings.HasSuffix(a1.String(), ".Y") && a0.String() == "elem("+ys+")")
 	}
 	nPred := 0
-	seenSearch := map[ssa.CallInstruction]bool{}
-	for _, e := range o.AllEdges() {
-		ft := o.EdgeFact(e)
+	seenSearch := map[ssa.Value]bool{}
+	ctxs := c.OpContexts(op)
+	type ctxEdge struct {
+		o *Origins
+		e Edge
+	}
+	var allEdges []ctxEdge
+	for _, og := range ctxs {
+		for _, e := range og.AllEdges() {
+			allEdges = append(allEdges, ctxEdge{og, e})
+		}
+	}
+	for _, ce := range allEdges {
+		ft := ce.o.EdgeFact(ce.e)
 		if ft == nil || ft.Kind != "cmp" {
 			continue
 		}
 		for _, side := range []*Ex{ft.A, ft.B} {
-			if !isCall(side, "slices.IndexFunc") || side.Call == nil || seenSearch[side.Call] || len(side.Args) != 2 {
+			if !isCall(side, "slices.IndexFunc") || side.V == nil || seenSearch[side.V] || len(side.Args) != 2 {
 				continue
 			}
-			seenSearch[side.Call] = true
+			seenSearch[side.V] = true
 			if side.Args[1].K == "pred" {
 				nPred++
-				R.Check("R3", fk, "row matched by its Y against the requested Y", c.P.InstrPos(side.Call), okPred(side.Args[1].Args[0]), "a row matches when its Y equals the Y being answered", short(side.Args[1].String(), 120))
+				pos := c.P.Pos(side.V.Pos())
+				if in, ok := side.V.(ssa.Instruction); ok {
+					pos = c.P.InstrPos(in)
+				}
+				R.Check("R3", fk, "row matched by its Y against the requested Y", pos, okPred(side.Args[1].Args[0]), "a row matches when its Y equals the Y being answered", short(side.Args[1].String(), 120))
+				continue
+			}
+			if side.Call == nil {
 				continue
 			}
 			var pred *ssa.Function
@@ -159,7 +177,7 @@ func (c *Ctx) c15StateCheck() {
 			if pred == nil {
 				continue
 			}
-			ao := c.P.OriginsOf(pred)
+			ao := ce.o.EnterClosure(pred)
 			for _, r := range Returns(pred) {
 				if len(r.Results) != 1 {
 					continue
@@ -176,13 +194,17 @@ func (c *Ctx) c15StateCheck() {
 	// state stores
 	var stateCell *ssa.Alloc
 	nSpent, nPend := 0, 0
-	for _, b := range op.Blocks {
+	var opBlocks []*ssa.BasicBlock
+	for _, g := range c.OpFuncs(op) {
+		opBlocks = append(opBlocks, g.Blocks...)
+	}
+	for _, b := range opBlocks {
 		for _, in := range b.Instrs {
 			st, ok := in.(*ssa.Store)
 			if !ok {
 				continue
 			}
-			v := o.Of(st.Val)
+			v := c.P.OriginsOf(b.Parent()).Of(st.Val)
 			if !(isConst(v, spentC) || isConst(v, pendC)) {
 				continue
 			}
@@ -193,13 +215,13 @@ func (c *Ctx) c15StateCheck() {
 			}
 			if isConst(v, spentC) {
 				nSpent++
-				ok2, why := o.Requires(st, hit(roleReadSpent))
+				ok2, why := c.RequireAt(st, hit(roleReadSpent))
 				R.Check("R3", fk, "SPENT <= Y found in the spent read", c.P.InstrPos(st), ok2, "an entry is SPENT only when that Y is in the spent table read for the request's Ys", why)
 			} else {
 				nPend++
-				ok2, why := o.Requires(st, hit(roleReadLocked))
+				ok2, why := c.RequireAt(st, hit(roleReadLocked))
 				R.Check("R3", fk, "PENDING <= Y found in the pending read", c.P.InstrPos(st), ok2, "an entry is PENDING only when that Y is in the pending table read for the request's Ys", why)
-				ok2, why = o.Requires(st, miss(roleReadSpent))
+				ok2, why = c.RequireAt(st, miss(roleReadSpent))
 				R.Check("R3", fk, "PENDING <= Y not in the spent read (priority)", c.P.InstrPos(st), ok2, "SPENT takes priority over PENDING", why)
 			}
 		}
